@@ -8,7 +8,7 @@ import tempfile
 from decimal import Decimal
 
 from engine import SPEC, gen_states, pool_map
-from readers import run_cli, write_text
+from readers import eol_for, run_cli, write_text
 
 POOL = json.load(open(os.path.join(SPEC, "data", "stat_pool.json")))
 DENS = [1, 2, 4, 5, 8, 10, 16, 20, 25, 40, 50, 80, 100, 125, 200, 250, 400, 500]
@@ -50,7 +50,7 @@ def run_case(job):
     d = tempfile.mkdtemp(prefix="stat_")
     try:
         gaf = os.path.join(d, "a.gaf" + (".gz" if storage == "bgzf" else ""))
-        write_text(gaf, "\n".join(gaf_line(r, k) for k, r in enumerate(recs)) + "\n", storage, block=200)
+        write_text(gaf, "\n".join(gaf_line(r, k) for k, r in enumerate(recs)) + eol_for(cid), storage, block=200)
         out = os.path.join(d, "report.txt")
         r = run_cli(["stat", gaf, "-o", out] + (["--cigar"] if cigar else []))
         txt = open(out).read() if os.path.exists(out) else ""
